@@ -137,6 +137,22 @@ class BaseDocument(base.Sectionable):
             new_value = None
         self._origin_file_name = new_value
 
+    def clone(self, children=True, keep_id=False):
+        """
+        Clones this Document recursively. By default the ids of the cloned
+        Document and of all its children will be set to new uuids.
+
+        :param children: If True, also clone all child Sections and their Properties.
+        :param keep_id: If True, the uuids of the Document and all child objects
+                        will remain unchanged.
+        :return: The cloned Document.
+        """
+        obj = super(BaseDocument, self).clone(children, keep_id)
+        if not keep_id:
+            obj.new_id()
+
+        return obj
+
     def finalize(self):
         """
         This needs to be called after the document is set up from parsing
